@@ -6,6 +6,7 @@ import (
 	"fmt"
 	"go/token"
 	"go/types"
+	nethttp "net/http"
 	"strconv"
 	"strings"
 
@@ -368,4 +369,56 @@ func sortSlice(fr *frame, a []value) value {
 func init() {
 	externals2["sort.SliceStable"] = sortSlice
 	externals2["sort.Slice"] = sortSlice
+}
+
+// (*net/http.Cookie).String: net/http's package initialiser is not run (its cookie sanitiser
+// tables are package-level values), so the formatting of a cookie is delegated to the native
+// net/http: the interpreter struct is copied field by field (by name) into a native http.Cookie.
+func extCookieString(fr *frame, a []value) value {
+	p, ok := a[0].(*value)
+	if !ok || p == nil {
+		return ""
+	}
+	st := (*p).(structure)
+	t := fr.fn.Signature.Recv().Type()
+	ptr, _ := t.Underlying().(*types.Pointer)
+	var sty *types.Struct
+	if ptr != nil {
+		sty, _ = ptr.Elem().Underlying().(*types.Struct)
+	}
+	if sty == nil {
+		panic(abort{kind: "unsupported", msg: "Cookie.String: unexpected receiver type"})
+	}
+	var c nethttp.Cookie
+	for k := 0; k < sty.NumFields(); k++ {
+		v := st[k]
+		switch sty.Field(k).Name() {
+		case "Name":
+			c.Name = mustGoString(v)
+		case "Value":
+			c.Value = mustGoString(v)
+		case "Path":
+			c.Path = mustGoString(v)
+		case "Domain":
+			c.Domain = mustGoString(v)
+		case "MaxAge":
+			c.MaxAge = int(asInt64(v))
+		case "Secure":
+			c.Secure, _ = v.(bool)
+		case "HttpOnly":
+			c.HttpOnly, _ = v.(bool)
+		}
+	}
+	return c.String()
+}
+
+func mustGoString(v value) string {
+	if s, ok := v.(string); ok {
+		return s
+	}
+	panic(abort{kind: "inconclusive", msg: "symbolic string handed to a natively modelled function"})
+}
+
+func init() {
+	externals2["(*net/http.Cookie).String"] = extCookieString
 }
